@@ -4,6 +4,7 @@ CONSTANTS
   ImrVals <- ImrFull
   MaxDepth = 9
   MaxNest = 2
+  PcMod = 0
   AckOnReturn = TRUE
   RecordActs = FALSE
 INVARIANT DeliverOnlyIfEnabled
